@@ -14,12 +14,15 @@ PROP = {
             "exp, nbf, payload or header bytes altered after signing, malformed structure, garbage, empty/missing parameter, scrape) on two fixed base scenarios, "
             "start-up with a failing endpoint, empty JWK sets, a fixed rotation story; then refresh || validation in a child process under the race detector "
             "(NewHook's own goroutine refreshing every 200 us while 4 goroutines validate); then random: single and double changes on random bases, random rotation "
-            "histories (4-12 operations, successful and failing refreshes, kid reuse, duplicate kids, EC keys). Non-trivial = every case; distinct = distinct input JSON.",
+            "histories (4-12 operations, successful and failing refreshes, kid reuse, duplicate kids, EC keys). "
+            "Refresh-overlap cases (child process): the JWK endpoint holds one response back while the issuer rotates and announces are decided; every GET is logged with the version served, "
+            "every announce with start and end; the log must be explained by register versions that only move forward (Glue/G15.chk_overlap, judged against serial_fetch_register). Non-trivial = every case; distinct = distinct input JSON.",
     "tags": {"0": "token accepted", "1": "rejected: does not parse as a JWT", "2": "rejected: issuer", "3": "rejected: audience", "4": "rejected: infohash claim",
              "5": "rejected: no kid", "6": "rejected: kid not published", "7": "rejected: alg is not RS256", "8": "rejected: signature does not verify under the published key",
              "9": "rejected: expired", "10": "rejected: not yet valid", "20": "no jwt parameter", "21": "scrape (never checked)", "22": "initial fetch failed: no hook",
              "23": "a refresh with a well-formed set failed", "30": "history with a failing refresh", "31": "history of successful refreshes",
-             "50": "race detector run", "51": "verdicts during concurrent refreshes"},
+             "50": "race detector run", "51": "verdicts during concurrent refreshes",
+             "52": "announces while a fetch is in flight and the issuer rotates"},
     "trivial_tags": [], "min_tags": 14,
     "reasons": {"1": "a string that does not parse as a JWT passed the hook", "2": "a token with a missing/other issuer passed", "3": "a token whose audience does not contain the configured one passed",
                 "4": "a token whose infohash claim is not the announced infohash (lower-case hex) passed", "5": "a token without kid / with a kid that is not currently published passed",
@@ -29,6 +32,8 @@ PROP = {
                 "13": "a refresh that was served a well-formed JWK set failed (it cannot take effect for later announces)",
                 "20": "DATA RACE reported by the race detector between the refresh goroutine (write of hook.publicKeys in updateKeys) and HandleAnnounce (read) - F5",
                 "21": "during concurrent refreshes a verdict was neither the one under the old nor the one under the new key set",
+                "22": "an announce was decided under a key set the hook can no longer (or not yet) hold: no choice of versions that only moves forward - at least the newest "
+                      "version a returned refresh carried, at most the newest version served - explains the verdicts (a withdrawn key trusted again / a refresh undone)",
                 "111": "rejected as required, but not with the hook's fixed client error (ErrMissingJWT / ErrInvalidJWT)",
                 "113": "a refresh that was served something that is not a JWK set reported success: register contents unknown"},
     "assumptions": ["RSA PKCS#1 v1.5 verification, base64url and JSON decoding are oracles: the abstract token record is computed by the driver with crypto/rsa, encoding/base64, encoding/json",
@@ -38,7 +43,9 @@ PROP = {
                    "[published_iff: the last JWK-set entry carrying that kid], issuer equal, configured audience among the token's, infohash claim = lower-case hex of the announced "
                    "infohash, within exp/nbf), single_change_rejects + one lemma per aspect, refresh_effective (EVERY history: each verdict is jwt_accept under the key set of the latest "
                    "successful refresh; failed refreshes invisible), refresh_snapshot_atomic(_general) (every interleaving of refresher steps with a validation that reads the register "
-                   "once: verdict = the one under the register after some whole number of refreshes - old or new, never a mixture), scrape_never_checked, missing_param_rejected, "
+                   "once: verdict = the one under the register after some whole number of refreshes - old or new, never a mixture), serial_fetch_register (fetches whose responses are slow while the issuer rotates: with the one caller of updateKeys the code has, "
+                   "under EVERY schedule of serve/install/rotate events the register is the version of the newest completed fetch, at most the newest version served, and never goes back) with "
+                   "two_fetchers_register_goes_back (a second caller breaks it), scrape_never_checked, missing_param_rejected, "
                    "jwt_legacy_ignores_exp_refuted / _nbf_refuted (F4: the pre-fix code never looks at exp/nbf). RSA/JSON/base64 are oracles (Section variables / shipped per case); "
                    "the data race on hook.publicKeys (F5) is outside the model and shown by `-race` in the correspondence run. Tied to middleware/jwt/jwt.go by real tokens through "
                    "the real hook: verdict and error compared with the model per request along refresh histories.",
